@@ -66,7 +66,7 @@ s = sun.sun(**kwargs)
 for key, value in s.items():
     sun_as_str[key] = s[key].strftime(format_str)
 
-sun_as_str["timezone"] = kwargs["tzinfo"].tzname
+sun_as_str["timezone"] = str(kwargs["tzinfo"])
 sun_as_str["location"] = f"{loc.name}, {loc.region}"
 
 print(json.dumps(sun_as_str))
